@@ -252,10 +252,12 @@ M, B, E = 'modelled', 'benign', 'elsewhere'
 _XR = 'builds the substitution dict of an xreplace: a mapping, no order'
 _POP = ('Derivative(x, t).free_symbols is the singleton {x} for the first-order derivative of a variable, the only '
         'left-hand side add_equation supports; pop() of a singleton has one answer')
-# site_key -> (expected count, class, note). Written for /repo after the C15 fix (df25620).
+# site_key -> (expected count, class, note). Written for /repo after the C15 fixes (df25620; graph nodes).
 KNOWN = {
-    'cellmlmanip/model.py|Model.graph|for|self.find_variables_and_derivatives([equation.rhs])':
-        (1, M, 'Adv.refs: the order in which the references of one equation become edges / late nodes of the graph'),
+    'cellmlmanip/model.py|Model.graph|sorted-key|self.find_variables_and_derivatives([equation.rhs])':
+        (1, M, 'Adv.refs: the set of references of one equation is the INPUT of sorted(..., key=str) (C09.sortStr, a stable '
+               'sort): with pairwise distinct str keys the adversary has no say (graph_order_independent); the sorted list '
+               'decides the order of edges / late nodes of the graph'),
     'cellmlmanip/model.py|Model.get_equations_for|update|nx.ancestors(graph, output)':
         (1, M, 'Adv.anc: handed to set.update (order-blind); parameterised all the same'),
     'cellmlmanip/model.py|Model.graph|for|equation.atoms(Variable)':
@@ -277,7 +279,11 @@ KNOWN = {
 }
 # the site the C15 fix removed; the Lean model keeps it as `transformConstantsSet` with a proved counterexample
 REMOVED = {'cellmlmanip/parser.py|Parser.transform_constants|for|set(self.model.variables())':
-           'fixed by df25620: iterating a set of Variables made the order of Model.equations vary between processes'}
+           'fixed by df25620: iterating a set of Variables made the order of Model.equations vary between processes',
+           # the site the graph-nodes fix removed; the Lean model keeps it as `graphSet` with a proved counterexample
+           'cellmlmanip/model.py|Model.graph|for|self.find_variables_and_derivatives([equation.rhs])':
+           'fixed (finding hashseed:graph_nodes): walking the set of references as it came made the order of '
+           'Model.graph.nodes vary between processes'}
 
 
 def report(repo=None):
